@@ -141,6 +141,12 @@ def make_cfgs(tier):
             box = rnd.choice([[[0.0, 1.0]], [[1e6, 1e6 + 3.0]], [[-7.0, -3.0]]])
             cfgs.append({"id": i, "algo": "Zooming", "kind": kind, "K": K, "D": D, "box": box * D if D > 1 else box, "n": 120, "T": 120, "prm": {"nu": nu, "rho": rho},
                          "pattern": rnd.choice(["const", "neg", "zero"]), "seed": rnd.randrange(1 << 30), "timeout": 30})
+    # HCT / VHCT / T-HOO declare no depth cap: with rho close to 1 and rewards that keep growing the tree gains a level every
+    # other round and is ~1000 levels deep after 2000 rounds (anything recursive over the depth meets the interpreter's limit)
+    for algo, prm, T in (("HCT", {"nu": 1, "rho": 0.9995}, 2100),) + ((("VHCT", {"nu": 1, "rho": 0.9995}, 2100), ("T_HOO", {"nu": 1, "rho": 0.9995}, 2100)) if tier != "quick" else ()):
+        i += 1
+        cfgs.append({"id": i, "algo": algo, "kind": "bin", "K": 2, "D": 1, "box": [[0.0, 1.0]], "n": T, "T": T, "prm": prm, "pattern": "climb", "seed": rnd.randrange(1 << 30), "timeout": 60,
+                     "notree": tier == "quick" or algo != "HCT"})      # protocol / point clauses only (a 2000-cell tree per event is the thorough tier's)
     # the ends of the float range: tiny, subnormal, huge, and a box whose bounds sum overflows (finding F15)
     for j, box in enumerate(([[1e-300, 2e-300]], [[5e-324, 1e-323]], [[-1e150, 1e150]], [[1.0, 1.0000000000000002]], [[1e307, 1.7e308]])):
         for algo in ("T_HOO", "SOO", "Zooming"):
